@@ -13,7 +13,7 @@ GENERATED = ['DtypeTables', 'Core', 'SrcShape', 'ShapeLoop']  # generated files 
 LEAN_MODULES = ["Properties.C03", "Properties.C03p", "Properties.Core", "Properties.Prov.Shape", "Properties.CoreShape"]
 RULE = (
     "exhaustive: every shape string of <=4 dimensions over {0,2,3,a,c=2} with the marker (none / ... / *g) in every position x every array "
-    "shape of rank 0..5 (quick) / 0..6 (thorough) over sizes {0,2,3} (sampled where the product is large) x accepted / rejected dtype; plus the "
+    "shape of rank 0..5 (quick) / 0..6 (thorough) over sizes {0,2,3} (sampled where the product is large) x accepted / rejected dtype (every (shape string, rank) pair meets both, in each library, rank 0 included); plus the "
     "class x library matrix on one fixed shape. The verdict and the report (kind, axis index in the actual tensor, expected, actual) are judged "
     "by an independent oracle (oracle.spec_check). non-trivial = distinct (shape string, array shape) pair with at least one literal or marker"
 )
@@ -46,10 +46,16 @@ def cases(tier, rng, run):
         for r in ranks:
             allshapes = list(itertools.product([0, 2, 3], repeat=r))
             pick = allshapes if len(allshapes) <= per else rng.sample(allshapes, per)
-            for sh in pick:
+            for k, sh in enumerate(pick):
                 cls, dtn = ("FloatTensor", "float32") if rng.random() < 0.85 else ("FloatTensor", "int32")
                 lib = rng.choice([0, 1, 2])
                 out.append(Case(f"CHECK\t{cls},0,{s}\t{lib}:{dtn}\t{'.'.join(map(str, sh))}", "exh", {"dims": dims, "cls": cls, "dt": f"{lib}:{dtn}", "shape": sh}))
+                if k == 0:
+                    # every (shape string, rank) pair meets both an accepted and a refused dtype, in every library (rank 0 included)
+                    for lib2 in (0, 1, 2):
+                        for dt2 in ("float32", "int32"):
+                            if (lib2, dt2) != (lib, dtn):
+                                out.append(Case(f"CHECK\t{cls},0,{s}\t{lib2}:{dt2}\t{'.'.join(map(str, sh))}", "exh", {"dims": dims, "cls": cls, "dt": f"{lib2}:{dt2}", "shape": sh}))
     return out
 
 
